@@ -11,6 +11,9 @@ import RV.Base.Proto
          `b:cp.cp.…` (blank-node label) or `l:n:cp.cp.…` (literal: opaque datatype/language tag n, lexical form);
          answer = `isoDecide g (deSkolemizeSt (skolemizeAt A B g))` (stateful model with the `skolems` dict,
          starting from an empty dict) after interning the string terms
+    skolemsel M A B k L1 … Lk T T T … -> true | false   partial skolemisation: only the k blank nodes `b:cps` listed
+                                         are skolemised (`skolemize(bnode=…)` one by one), then `de_skolemize()`
+                                         (M = full) or `de_skolemize(uriref=…)` for each of their IRIs (M = uriref)
     refine c c c …                    -> the blank-node partition after the initial colour refinement of the
                                          model (`refinePartition`), canonical: classes sorted, `|`-separated
                                          (diagnostic tie of RV/C14/Canon.lean to `_TripleCanonicalizer._refine`)
@@ -109,6 +112,19 @@ def step (s : Unit) : List String → Unit × String
       let g' := (deSkolemizeSt simpleUrl mintLabel ⟨[], 0⟩ (skolemizeAt simpleUrl a b g)).1
       let v := vocab g ++ vocab g'
       (s, showB (isoDecide (intern v g) (intern v g')))
+    | _, _, _ => (s, "bad-op")
+  | "skolemsel" :: mode :: auth :: base :: k :: rest =>
+    match chars? auth, chars? base, k.toNat? with
+    | some a, some b, some n =>
+      match (rest.take n).mapM (fun w => match sterm? w with | some (.bnode l) => some l | _ => none),
+            striples? (rest.drop n) with
+      | some sel, some g =>
+        let sk := skolemizeSel simpleUrl a b sel g
+        let g' := if mode = "uriref" then deSkolemizeOnly simpleUrl (fun u => "~fresh~".toList ++ u) (sel.map (skolemizeLabelAt simpleUrl a b)) sk
+                  else (deSkolemizeSt simpleUrl mintLabel ⟨[], 0⟩ sk).1
+        let v := vocab g ++ vocab g'
+        (s, showB (isoDecide (intern v g) (intern v g')))
+      | _, _ => (s, "bad-op")
     | _, _, _ => (s, "bad-op")
   | "refine" :: rest =>
     match triples? rest with
